@@ -9,15 +9,27 @@
   * `fileformat_doc_spec` — `parse (fileformatX src) = fmtDoc (parse src)`;
   * `write_fetch_roundtrip` (+ `_at_key`, `_at_root`, `file_parser_roundtrip`) — fetch after write
     stores exactly the payload the write step serialised, and that payload is the formatted input;
+  * file level, with encodings (`fileWriteStored`, `fetchStored`, `fileParserArgs`):
+    `parser_roundtrip_iff_encoding` — the file context parser reads with `config.default_encoding`
+    (it has no encoding option): it returns the written mapping iff that is the encoding the write
+    step wrote in, else `UnicodeDecodeError`; `write_fetch_roundtrip_every_encoding` — the fetch step
+    with the same `encoding` entry round-trips for every encoding; `parser_path_is_space_join`,
+    `parser_no_args_table`, `parser_non_mapping_typeerror`; witness `utf16_parser_fails_fetch_succeeds`;
+    `write_error_class` — the class of the error when the serialiser refuses the payload, per format
+    and cause;
   both under the explicit codec hypothesis `c.RoundTrips d` (`∃ t, enc d = some t ∧ dec t = some d`).
   For YAML (ruamel.yaml) and TOML (tomli_w/tomllib) that hypothesis is validated by generation only
   (harness/props/c16.py checks it directly on every generated payload; known failure: U+0085).
-  For JSON it is DISCHARGED: `json_roundtrip : Json.parse (Json.print d) = .ok d []` for every document
-  of objects with distinct string keys, arrays, strings, ints, bools, null (`Props/Lemmas/C16_Json*.lean`),
-  hence `json_codec_roundtrips` and the hypothesis-free `write_fetch_roundtrip_json`.
+  For JSON it is DISCHARGED, for every `config.json_indent` / `config.json_ascii` setting:
+  `json_roundtrip_coerce : Json.parse (Json.print o d) = .ok (Json.coerceKeys d) []` for every document
+  `json.dump` accepts (str/int/float/bool/None keys — written as strings, so coerced —, arrays, strings,
+  ints, bools, null, floats with a short exact decimal expansion), `json_roundtrip` (`= .ok d []`) for the
+  string-keyed ones (`Props/Lemmas/C16_Json*.lean`), hence `json_codec_roundtrips` and the hypothesis-free
+  `write_fetch_roundtrip_json` / `write_fetch_json_coerce`, `fileformatjson_doc_spec` / `_coerce`.
 -/
 import Props.Lemmas.C16_Glue
 import Props.Lemmas.C16_JsonRoundTrip
+import Props.Lemmas.C16_JsonCoerce
 
 namespace Pypyr.C16
 open Pypyr.Codec
@@ -327,45 +339,425 @@ example : (runSession (fun _ => Codec.ideal) 8 [("legacy.yaml", Val.dict [(.str 
        ("o.yaml", Val.dict [(.str "answer", .str "yes"), (.str "no", .str "12:30:00")])] := by
   decide +kernel
 
-/-! ### JSON: the codec hypothesis discharged -/
+/-! ### Encodings of the write step, the fetch step and the file context parser
 
-/-- **json_roundtrip.** For every document of objects with pairwise distinct string keys, arrays,
-    strings, ints, bools and null (floats excluded), parsing what the printer prints gives the
-    document back, with nothing left over. The printer mirrors
-    `json.dump(d, f, indent=2, ensure_ascii=False)`, the parser `json.load` (tied by correspondence). -/
-theorem json_roundtrip (d : Val) (h : Json.isJson false d = true) :
-    Json.parse (Json.print d) = .ok d [] :=
-  Json.parse_print d h
+  `filewrite{json,yaml}` write in `input.get('encoding', config.default_encoding)`; `fetch{json,yaml}`
+  read with the same expression over their own input; the file context parsers take NO encoding option
+  and read with `config.default_encoding`; toml is bytes (UTF-8) on every side. The model keeps the NAME
+  of the encoding next to the text (`Stored`) and `Stored.readAs` is idealised: reading with the same
+  name gives the text, reading with another name is a `UnicodeDecodeError`. REAL codecs may instead
+  decode to garbage for some pairs (latin-1 decodes any bytes; utf-8-sig reads plain utf-8; ASCII-only
+  text is the same bytes in utf-8 and latin-1): the correspondence therefore takes "raises, or returns
+  something else than what was written" as the negative side, on payloads with non-ASCII content. -/
 
-/-- The JSON codec satisfies the hypothesis of the theorems above on its whole (float-free) domain. -/
-theorem json_codec_roundtrips (d : Val) (h : Json.isJson false d = true) : Json.codec.RoundTrips d := by
-  refine ⟨Json.print d, ?_, ?_⟩
-  · simp [Json.codec, Json.isJson_mono d h]
-  · simp [Json.codec, json_roundtrip d h]
+private def payload16 : Val := .dict [(.str "título", .str "Señor é"), (.str "l", .list [.str "ü", .int 1])]
+private def wctx16 : Ctx :=
+  [("fileWriteJson", .dict [(.str "path", .str "my file.json"), (.str "payload", payload16),
+      (.str "encoding", .str "utf-16")])]
+private def fctx16 : Ctx :=
+  [("fetchJson", .dict [(.str "path", .str "my file.json"), (.str "key", .str "out"),
+      (.str "encoding", .str "utf-16")])]
 
-/-- **write_fetch_roundtrip for JSON, without hypothesis on the codec.** -/
-theorem write_fetch_roundtrip_json (fuel fuel2 : Nat) (ctx ctx2 : Ctx) (files : Files (List Char))
-    (path : String) (p' : Val) (key : Option Val)
-    (hw : writePayload .json fuel ctx = .ok (path, p')) (hj : Json.isJson false p' = true)
-    (hf : fetchArgs .json fuel2 ctx2 = .ok (path, key)) :
-    ∃ files', fileWrite .json Json.codec fuel ctx files = .ok files' ∧
-      fetch .json Json.codec fuel2 ctx2 files' = store ctx2 key p' :=
-  write_fetch_roundtrip .json Json.codec fuel fuel2 ctx ctx2 files path p' key hw
-    (json_codec_roundtrips p' hj) hf
+/-- **parser_roundtrip_iff_encoding.** A mapping payload is written by `filewriteX` (config default
+    `wd` at that time; the step writes in `we`) and the codec round-trips it (the hypothesis of
+    `file_parser_roundtrip`). The matching file context parser, invoked under config default `pd` with
+    arguments whose single-space join is the path, returns exactly the written mapping IF AND ONLY IF the
+    encoding the file was written in equals the encoding the parser reads with (`parserEnc`: the config
+    default, `None` = platform utf-8; for toml always utf-8) — otherwise it raises `UnicodeDecodeError`
+    (idealised `readAs`, see the section comment). The parser has no `encoding` option: a file written
+    with `encoding: utf-16` is NOT read back by it unless `config.default_encoding` is utf-16 too. -/
+theorem parser_roundtrip_iff_encoding {τ} (f : Format) (c : Codec τ) (fuel : Nat) (ctx : Ctx)
+    (files : Files (Stored τ)) (wd pd : Option String) (path we : String) (kvs : List (Val × Val))
+    (args : List String)
+    (hw : writePayload f fuel ctx = .ok (path, .dict kvs)) (hc : c.RoundTrips (.dict kvs))
+    (hwe : writeEncoding f fuel ctx wd = .ok we) (hne : args ≠ []) (hj : joinArgs args = path) :
+    ∃ files', fileWriteStored f c fuel ctx wd files = .ok files' ∧
+      (fileParserArgs f c pd (some args) files' = .ok (some (.dict kvs)) ↔ we = parserEnc f pd) ∧
+      (we ≠ parserEnc f pd →
+        fileParserArgs f c pd (some args) files' = .error ⟨"UnicodeDecodeError", path⟩) := by
+  obtain ⟨t, he, hd⟩ := hc
+  refine ⟨files.set path ⟨we, t⟩, fileWriteStored_ok f c fuel ctx wd files path we _ t hw hwe he, ?_, ?_⟩
+  · rw [fileParserArgs_cons f c pd args _ hne, hj]
+    simp only [fileParserPath, Files.get?_set_self]
+    by_cases h : we = parserEnc f pd
+    · simp [Stored.readAs, h, fileParserF_dict f c t kvs hd]
+    · simp [Stored.readAs, h]
+  · intro h
+    rw [fileParserArgs_cons f c pd args _ hne, hj]
+    simp [fileParserPath, Files.get?_set_self, Stored.readAs, h]
 
-/-- **fileformat_doc_spec for JSON, without hypothesis on the codec.** -/
-theorem fileformatjson_doc_spec (fuel : Nat) (ctx : Ctx) (src : List Char) (d d' : Val)
-    (hsrc : Json.codec.dec src = some d) (hd : isDoc d = true) (hfmt : fmtDoc fuel ctx d = .ok d')
-    (hj : Json.isJson false d' = true) :
-    ∃ out, fileFormatDoc Json.codec fuel ctx src = .ok out ∧ Json.codec.dec out = some d' ∧ DocMap ctx d d' :=
-  fileformat_doc_spec Json.codec fuel ctx src d d' hsrc hd hfmt (json_codec_roundtrips d' hj)
-
-/-- The hypothesis of `json_roundtrip` holds of the example document, and the round trip computes. -/
-example : Json.isJson false docEx = true := by decide +kernel
-
-example : Json.print docEx =
-    "{\n  \"a{k1}\": [\n    \"x{k1}\",\n    \"{k2}\",\n    1,\n    null\n  ],\n  \"true\": \"true\"\n}".toList ∧
-    Json.parse (Json.print docEx) = .ok docEx [] := by
+/-- The hypotheses are satisfiable, on both sides of the iff. -/
+example : writePayload .json 8 wctx16 = .ok ("my file.json", payload16) ∧
+    writeEncoding .json 8 wctx16 none = .ok "utf-16" ∧ joinArgs ["my", "file.json"] = "my file.json" ∧
+    parserEnc .json none = "utf-8" ∧ parserEnc .json (some "utf-16") = "utf-16" := by
   decide +kernel
+
+/-- TOML has no encodings: the toml parser reads back what `filewritetoml` wrote whatever
+    `config.default_encoding` is, at write time and at parse time. -/
+theorem toml_parser_roundtrip_any_default {τ} (c : Codec τ) (fuel : Nat) (ctx : Ctx)
+    (files : Files (Stored τ)) (wd pd : Option String) (path : String) (kvs : List (Val × Val))
+    (args : List String)
+    (hw : writePayload .toml fuel ctx = .ok (path, .dict kvs)) (hc : c.RoundTrips (.dict kvs))
+    (hne : args ≠ []) (hj : joinArgs args = path) :
+    ∃ files', fileWriteStored .toml c fuel ctx wd files = .ok files' ∧
+      fileParserArgs .toml c pd (some args) files' = .ok (some (.dict kvs)) := by
+  obtain ⟨files', h1, h2, _⟩ := parser_roundtrip_iff_encoding .toml c fuel ctx files wd pd path "utf-8" kvs args
+    hw hc rfl hne hj
+  exact ⟨files', h1, h2.mpr rfl⟩
+
+/-- json / yaml: no `encoding` option on the write step and the same config default on both sides
+    (both `None` counts: platform utf-8): the parser reads the file back. -/
+theorem parser_roundtrip_default_encoding {τ} (f : Format) (c : Codec τ) (fuel : Nat) (ctx : Ctx)
+    (files : Files (Stored τ)) (dflt : Option String) (path : String) (kvs input : List (Val × Val))
+    (args : List String)
+    (hin : formattedInput fuel ctx f.writeKey = .ok (.dict input))
+    (hopt : dictGet? input (.str "encoding") = none)
+    (hw : writePayload f fuel ctx = .ok (path, .dict kvs)) (hc : c.RoundTrips (.dict kvs))
+    (hne : args ≠ []) (hj : joinArgs args = path) :
+    ∃ files', fileWriteStored f c fuel ctx dflt files = .ok files' ∧
+      fileParserArgs f c dflt (some args) files' = .ok (some (.dict kvs)) := by
+  have hwe : writeEncoding f fuel ctx dflt = .ok (parserEnc f dflt) := by
+    cases f <;> simp [writeEncoding, hin, encodingOpt, hopt, parserEnc]
+  obtain ⟨files', h1, h2, _⟩ := parser_roundtrip_iff_encoding f c fuel ctx files dflt dflt path _ kvs args
+    hw hc hwe hne hj
+  exact ⟨files', h1, h2.mpr rfl⟩
+
+private def wctxToml : Ctx :=
+  [("k1", .str "v1"),
+   ("fileWriteToml", .dict [(.str "path", .str "out dir/my file.toml"),
+      (.str "payload", .dict [(.str "título", .str "Señor {k1}")])])]
+
+/-- The hypotheses of the two corollaries on concrete inputs: a toml write (under ANY config default
+    the file is utf-8 and the parser reads utf-8), and a step input without an `encoding` entry. -/
+example : writePayload .toml 8 wctxToml = .ok ("out dir/my file.toml", .dict [(.str "título", .str "Señor v1")]) ∧
+    joinArgs ["out", "dir/my", "file.toml"] = "out dir/my file.toml" ∧
+    writeEncoding .toml 8 wctxToml (some "utf-16") = .ok "utf-8" ∧ parserEnc .toml (some "latin-1") = "utf-8" ∧
+    formattedInput 8 wctxToml Format.toml.writeKey =
+      .ok (.dict [(.str "path", .str "out dir/my file.toml"),
+                  (.str "payload", .dict [(.str "título", .str "Señor v1")])]) ∧
+    dictGet? [(.str "path", .str "out dir/my file.toml"),
+              (.str "payload", .dict [(.str "título", .str "Señor v1")])] (.str "encoding") = none := by
+  decide +kernel
+
+/-- **write_fetch_stored_roundtrip** (the contrast): the fetch step reads with ITS `encoding` option;
+    whenever that is the encoding the file was written in, it stores exactly the payload written — for
+    every encoding name. -/
+theorem write_fetch_stored_roundtrip {τ} (f : Format) (c : Codec τ) (fuel fuel2 : Nat) (ctx ctx2 : Ctx)
+    (files : Files (Stored τ)) (wd fd : Option String) (path we : String) (p' : Val) (key : Option Val)
+    (hw : writePayload f fuel ctx = .ok (path, p')) (hc : c.RoundTrips p')
+    (hwe : writeEncoding f fuel ctx wd = .ok we)
+    (hf : fetchArgs f fuel2 ctx2 = .ok (path, key)) (hfe : fetchEncoding f fuel2 ctx2 fd = .ok we) :
+    ∃ files', fileWriteStored f c fuel ctx wd files = .ok files' ∧
+      fetchStored f c fuel2 ctx2 fd files' = store ctx2 key p' := by
+  obtain ⟨t, he, hd⟩ := hc
+  exact ⟨files.set path ⟨we, t⟩, fileWriteStored_ok f c fuel ctx wd files path we _ t hw hwe he,
+    fetchStored_eq_store f c fuel2 ctx2 fd _ path we key t p' hf hfe (Files.get?_set_self _ _ _) hd⟩
+
+/-- …and with another encoding the fetch step fails like the parser does (idealised `readAs`). -/
+theorem write_fetch_stored_other_encoding {τ} (f : Format) (c : Codec τ) (fuel fuel2 : Nat) (ctx ctx2 : Ctx)
+    (files : Files (Stored τ)) (wd fd : Option String) (path we fe : String) (p' : Val) (key : Option Val)
+    (hw : writePayload f fuel ctx = .ok (path, p')) (hc : c.RoundTrips p')
+    (hwe : writeEncoding f fuel ctx wd = .ok we)
+    (hf : fetchArgs f fuel2 ctx2 = .ok (path, key)) (hfe : fetchEncoding f fuel2 ctx2 fd = .ok fe)
+    (hne : we ≠ fe) :
+    ∃ files', fileWriteStored f c fuel ctx wd files = .ok files' ∧
+      fetchStored f c fuel2 ctx2 fd files' = .error ⟨"UnicodeDecodeError", path⟩ := by
+  obtain ⟨t, he, _⟩ := hc
+  exact ⟨files.set path ⟨we, t⟩, fileWriteStored_ok f c fuel ctx wd files path we _ t hw hwe he,
+    fetchStored_other_encoding f c fuel2 ctx2 fd _ path fe we key t hf hfe (Files.get?_set_self _ _ _) hne⟩
+
+/-- **write_fetch_roundtrip_every_encoding.** The same `encoding` entry (any string, `None`, or none at
+    all) in the inputs of the write step and of the fetch step, under one config default: the round
+    trip holds — for EVERY encoding the steps accept, unlike the parser. -/
+theorem write_fetch_roundtrip_every_encoding {τ} (f : Format) (c : Codec τ) (fuel fuel2 : Nat) (ctx ctx2 : Ctx)
+    (files : Files (Stored τ)) (dflt : Option String) (path we : String) (p' : Val) (key : Option Val)
+    (inputW inputF : List (Val × Val))
+    (hW : formattedInput fuel ctx f.writeKey = .ok (.dict inputW))
+    (hF : formattedInput fuel2 ctx2 f.fetchKey = .ok (.dict inputF))
+    (hsame : dictGet? inputF (.str "encoding") = dictGet? inputW (.str "encoding"))
+    (hw : writePayload f fuel ctx = .ok (path, p')) (hc : c.RoundTrips p')
+    (hwe : writeEncoding f fuel ctx dflt = .ok we)
+    (hf : fetchArgs f fuel2 ctx2 = .ok (path, key)) :
+    ∃ files', fileWriteStored f c fuel ctx dflt files = .ok files' ∧
+      fetchStored f c fuel2 ctx2 dflt files' = store ctx2 key p' :=
+  write_fetch_stored_roundtrip f c fuel fuel2 ctx ctx2 files dflt dflt path we p' key hw hc hwe hf
+    (by rw [fetchEncoding_eq_writeEncoding f fuel fuel2 ctx ctx2 dflt inputW inputF hW hF hsame, hwe])
+
+/-- The hypotheses on concrete inputs: the fetch input names utf-16 like the write input (so both
+    steps agree whatever the config default is); a fetch step told utf-8 does not (`we ≠ fe`). -/
+example : fetchArgs .json 8 fctx16 = .ok ("my file.json", some (.str "out")) ∧
+    fetchEncoding .json 8 fctx16 none = .ok "utf-16" ∧
+    fetchEncoding .json 8 fctx16 (some "latin-1") = .ok "utf-16" ∧
+    writeEncoding .json 8 wctx16 (some "latin-1") = .ok "utf-16" ∧
+    (∃ inputW inputF, formattedInput 8 wctx16 Format.json.writeKey = .ok (.dict inputW) ∧
+      formattedInput 8 fctx16 Format.json.fetchKey = .ok (.dict inputF) ∧
+      dictGet? inputF (.str "encoding") = dictGet? inputW (.str "encoding")) ∧
+    fetchEncoding .json 8 [("fetchJson", .str "my file.json")] none = .ok "utf-8" ∧
+    "utf-16" ≠ "utf-8" := by
+  refine ⟨by decide +kernel, by decide +kernel, by decide +kernel, by decide +kernel,
+    ⟨[(.str "path", .str "my file.json"), (.str "payload", payload16), (.str "encoding", .str "utf-16")],
+     [(.str "path", .str "my file.json"), (.str "key", .str "out"), (.str "encoding", .str "utf-16")],
+     by decide +kernel, by decide +kernel, by decide +kernel⟩, by decide +kernel, by decide +kernel⟩
+
+/-- The `encoding` option, as both steps read it: a string is that encoding; a present `None` is the
+    platform default whatever the config default is; absent is the config default (platform default
+    when that is not set). A plain-string fetch input has no option. -/
+theorem encoding_option_table (input : List (Val × Val)) (dflt : Option String) :
+    (∀ e, dictGet? input (.str "encoding") = some (.str e) → encodingOpt input dflt = .ok (some e)) ∧
+    (dictGet? input (.str "encoding") = some .none → encodingOpt input dflt = .ok none) ∧
+    (dictGet? input (.str "encoding") = none → encodingOpt input dflt = .ok dflt) ∧
+    platformEnc none = "utf-8" ∧ (∀ e, platformEnc (some e) = e) := by
+  refine ⟨?_, ?_, ?_, rfl, fun _ => rfl⟩ <;> intros <;> simp_all [encodingOpt]
+
+/-- **parser_path_is_space_join.** With arguments, the parser opens the single-space join of ALL of
+    them: a path containing a space may arrive split over several arguments (`my file.json` as
+    `['my', 'file.json']`), and two argument lists with the same join are the same call. -/
+theorem parser_path_is_space_join {τ} (f : Format) (c : Codec τ) (dflt : Option String)
+    (files : Files (Stored τ)) (args args' : List String) (hne : args ≠ []) :
+    (fileParserArgs f c dflt (some args) files =
+      match fileParserPath f c dflt (joinArgs args) files with
+      | .error e => .error e
+      | .ok v => .ok (some v)) ∧
+    (args' ≠ [] → joinArgs args' = joinArgs args →
+      fileParserArgs f c dflt (some args') files = fileParserArgs f c dflt (some args) files) ∧
+    (files.get? (joinArgs args) = none →
+      fileParserArgs f c dflt (some args) files = .error ⟨"FileNotFoundError", joinArgs args⟩) := by
+  refine ⟨fileParserArgs_cons f c dflt args files hne, ?_, ?_⟩
+  · intro hne' hj
+    rw [fileParserArgs_cons f c dflt args files hne, fileParserArgs_cons f c dflt args' files hne', hj]
+  · intro h
+    rw [fileParserArgs_cons f c dflt args files hne]
+    simp [fileParserPath, h]
+
+/-- `' '.join`: one argument is the path itself; more are joined by exactly one space each. -/
+theorem joinArgs_spec (a b : String) (rest : List String) :
+    joinArgs [] = "" ∧ joinArgs [a] = a ∧ joinArgs (a :: b :: rest) = a ++ " " ++ joinArgs (b :: rest) :=
+  ⟨rfl, rfl, rfl⟩
+
+example : joinArgs ["my", "file.json"] = "my file.json" ∧ joinArgs ["my file.json"] = "my file.json" ∧
+    joinArgs ["a", "", "b"] = "a  b" := by decide +kernel
+
+/-- **parser_no_args_table.** No context arguments (`None` or an empty list): the json and the yaml
+    parser raise `AssertionError`; the toml parser returns `None` — no initial context, no error. No
+    file is looked at. -/
+theorem parser_no_args_table {τ} (c : Codec τ) (dflt : Option String) (files : Files (Stored τ))
+    (args : Option (List String)) (h : args = none ∨ args = some []) :
+    (∃ m, fileParserArgs .json c dflt args files = .error ⟨"AssertionError", m⟩) ∧
+    (∃ m, fileParserArgs .yaml c dflt args files = .error ⟨"AssertionError", m⟩) ∧
+    fileParserArgs .toml c dflt args files = .ok none := by
+  rcases h with rfl | rfl <;> exact ⟨⟨_, rfl⟩, ⟨_, rfl⟩, rfl⟩
+
+/-- **parser_non_mapping_typeerror.** json / yaml: a file that reads and parses, but not to a mapping
+    (a list, a string, a number, null), is a `TypeError`. -/
+theorem parser_non_mapping_typeerror {τ} (f : Format) (c : Codec τ) (dflt : Option String)
+    (files : Files (Stored τ)) (args : List String) (t : τ) (d : Val)
+    (hf : f ≠ .toml) (hne : args ≠ [])
+    (hfile : files.get? (joinArgs args) = some ⟨parserEnc f dflt, t⟩)
+    (hdec : c.dec t = some d) (hnm : ∀ kvs, d ≠ .dict kvs) :
+    ∃ m, fileParserArgs f c dflt (some args) files = .error (typeError m) := by
+  rw [fileParserArgs_cons f c dflt args files hne]
+  simp only [fileParserPath, hfile, Stored.readAs_self, fileParserF_eq_fileParser f c t hf, fileParser, hdec]
+  cases d with
+  | dict kvs => exact absurd rfl (hnm kvs)
+  | _ => exact ⟨_, rfl⟩
+
+example : fileParserArgs .yaml Codec.ideal none (some ["l.yaml"]) [("l.yaml", ⟨"utf-8", Val.list [.int 1]⟩)]
+      = .error (typeError "input should describe a mapping at the top level") ∧
+    fileParserArgs .toml Codec.ideal none (some ["l.toml"]) [("l.toml", ⟨"utf-8", Val.dict []⟩)]
+      = .ok (some (.dict [])) := by
+  decide +kernel
+
+/-- **The witness.** `filewritejson` with `encoding: utf-16` under the default configuration: the file
+    context parser (default utf-8) cannot read the file back, although the arguments name it; the fetch
+    step with `encoding: utf-16` stores exactly the payload; and the parser does read it once
+    `config.default_encoding` is utf-16. -/
+theorem utf16_parser_fails_fetch_succeeds :
+    fileWriteStored .json Codec.ideal 8 wctx16 none [] = .ok [("my file.json", ⟨"utf-16", payload16⟩)] ∧
+    fileParserArgs .json Codec.ideal none (some ["my", "file.json"]) [("my file.json", ⟨"utf-16", payload16⟩)]
+      = .error ⟨"UnicodeDecodeError", "my file.json"⟩ ∧
+    fetchStored .json Codec.ideal 8 fctx16 none [("my file.json", ⟨"utf-16", payload16⟩)]
+      = .ok (Ctx.set fctx16 "out" payload16) ∧
+    fileParserArgs .json Codec.ideal (some "utf-16") (some ["my", "file.json"])
+      [("my file.json", ⟨"utf-16", payload16⟩)] = .ok (some payload16) := by
+  decide +kernel
+
+/-! ### The class of the error when the serialiser refuses the payload -/
+
+/-- **write_error_class.** When the write step got as far as the serialiser and the serialiser refuses
+    the payload, the step fails with the serialiser's own exception, whose class depends on the format
+    and on the cause: json `TypeError`; yaml ruamel's `RepresenterError`; toml `AttributeError` when the
+    top level is not a mapping (tomli_w calls `payload.items()`), `TypeError` when a node inside a
+    mapping has no TOML type or a key is not a string. The file level agrees with the value level. -/
+theorem write_error_class {τ} (f : Format) (c : Codec τ) (fuel : Nat) (ctx : Ctx) (files : Files τ)
+    (filesS : Files (Stored τ)) (dflt : Option String) (we path : String) (payload : Val)
+    (hw : writePayload f fuel ctx = .ok (path, payload)) (he : c.enc payload = none)
+    (hwe : writeEncoding f fuel ctx dflt = .ok we) :
+    fileWrite f c fuel ctx files = .error (serialiseError f payload) ∧
+    fileWriteStored f c fuel ctx dflt filesS = .error (serialiseError f payload) ∧
+    (f = .json → (serialiseError f payload).name = "TypeError") ∧
+    (f = .yaml → (serialiseError f payload).name = "ruamel.yaml.representer.RepresenterError") ∧
+    (f = .toml → (∃ kvs, payload = .dict kvs) → (serialiseError f payload).name = "TypeError") ∧
+    (f = .toml → (∀ kvs, payload ≠ .dict kvs) → (serialiseError f payload).name = "AttributeError") := by
+  have h1 : fileWrite f c fuel ctx files = .error (serialiseError f payload) := by
+    simp [fileWrite, hw, he]
+  refine ⟨h1, fileWriteStored_error_eq f c fuel ctx dflt filesS files we _ hwe h1, ?_, ?_, ?_, ?_⟩
+  · rintro rfl; rfl
+  · rintro rfl; rfl
+  · rintro rfl ⟨kvs, rfl⟩; rfl
+  · rintro rfl hn
+    cases payload with
+    | dict kvs => exact absurd rfl (hn kvs)
+    | _ => rfl
+
+/-- A serialiser that, like tomli_w, refuses a top level that is not a mapping and `None` below it. -/
+private def tomlLike : Codec Val :=
+  { enc := fun d => match d with
+      | .dict kvs => if kvs.all (fun kv => kv.2 != .none) then some d else none
+      | _ => none
+    dec := some }
+
+private def tomlCtx (payload : Val) : Ctx :=
+  [("fileWriteToml", .dict [(.str "path", .str "o.toml"), (.str "payload", payload)])]
+
+/-- The table on concrete payloads (toml): list / str / int → `AttributeError`; a mapping holding
+    `None` → `TypeError`; the falsy ones never reach the serialiser (`KeyInContextHasNoValueError`). -/
+example :
+    fileWrite .toml tomlLike 8 (tomlCtx (.list [.int 1, .int 2])) [] = .error (attributeError "object has no attribute 'items'") ∧
+    fileWrite .toml tomlLike 8 (tomlCtx (.str "x")) [] = .error (attributeError "object has no attribute 'items'") ∧
+    fileWrite .toml tomlLike 8 (tomlCtx (.int 42)) [] = .error (attributeError "object has no attribute 'items'") ∧
+    fileWrite .toml tomlLike 8 (tomlCtx (.dict [(.str "a", .none)])) [] = .error (typeError "Object is not TOML serializable") ∧
+    fileWrite .toml tomlLike 8 (tomlCtx (.list [])) [] =
+      .error (keyHasNoValue "payload must have a value to write to output TOML document.") ∧
+    fileWrite .toml tomlLike 8 (tomlCtx (.dict [(.str "a", .int 1)])) [] = .ok [("o.toml", .dict [(.str "a", .int 1)])] := by
+  decide +kernel
+
+/-! ### JSON: the codec hypothesis discharged
+
+  `Json.print o` mirrors `json.dump(d, f, indent=config.json_indent, ensure_ascii=config.json_ascii)`
+  for every setting `o` (`o.ind = some n`: an int indent, `none`: `indent=None`; `o.ascii`), `Json.parse`
+  mirrors `json.load` (both tied by correspondence, byte for byte / value for value). Domain
+  `Json.isJsonK true`: mappings with str/int/float/bool/None keys (duplicates after coercion allowed),
+  sequences, strings (every `Char`: all of Unicode but lone surrogates), ints, bools, null, and the
+  floats of `Json.fltOk` (canonical dyadic `n/2^k`, at most 15 digits, `|x| ≥ 1e-4` or 0: the floats
+  whose `repr` is their exact decimal expansion — `0.1`, exponent forms, `-0.0`, NaN/Infinity are not
+  covered and the parser answers `outside` for them). -/
+
+/-- **json_roundtrip_coerce.** For every document `json.dump` accepts and every indent / ensure_ascii
+    setting, parsing what the printer prints consumes all the text and gives the document with every
+    mapping key replaced by the string `json.dump` writes for it (`42` → `"42"`, `True` → `"true"`,
+    `None` → `"null"`, `1.5` → `"1.5"`), mappings rebuilt as `dict(pairs)` does (two keys written as the
+    same string: first position, last value). Non-string keys do NOT survive a JSON round trip as
+    themselves — this is what really comes back. -/
+theorem json_roundtrip_coerce (o : Json.Opts) (d : Val) (h : Json.isJsonK true d = true) :
+    Json.parse (Json.print o d) = .ok (Json.coerceKeys d) [] :=
+  Json.parse_print_coerce o d h
+
+/-- **json_roundtrip.** With string keys, pairwise distinct in every mapping (`Json.strKeys`: the
+    JSON-representable payloads of the property), the document itself comes back — floats included. -/
+theorem json_roundtrip (o : Json.Opts) (d : Val) (h : Json.isJsonK true d = true)
+    (hk : Json.strKeys d = true) : Json.parse (Json.print o d) = .ok d [] :=
+  Json.parse_print o d h hk
+
+/-- On string-keyed documents key coercion changes nothing. -/
+theorem json_coerceKeys_id (d : Val) (hk : Json.strKeys d = true) : Json.coerceKeys d = d :=
+  Json.coerceKeys_id d hk
+
+/-- **json_roundtrip_stable.** The keys are coerced once, by the first `json.dump`: the value that came
+    back is string-keyed, still in the domain, and from then on round-trips exactly — under every
+    setting, also another one than it was first written with. -/
+theorem json_roundtrip_stable (o : Json.Opts) (d : Val) (h : Json.isJsonK true d = true) :
+    Json.strKeys (Json.coerceKeys d) = true ∧ Json.isJsonK true (Json.coerceKeys d) = true ∧
+    Json.coerceKeys (Json.coerceKeys d) = Json.coerceKeys d ∧
+    Json.parse (Json.print o (Json.coerceKeys d)) = .ok (Json.coerceKeys d) [] :=
+  ⟨Json.coerceKeys_strKeys d, Json.coerceKeys_isJsonK true d h, Json.coerceKeys_idem d,
+   Json.parse_print_stable o d h⟩
+
+/-- The model's float printer is the shared `fltRepr` (`float.__repr__` on its domain), for all `n k`. -/
+theorem json_prFlt_is_fltRepr (n : Int) (k : Nat) : Json.prFlt n k = (fltRepr n k).toList :=
+  Json.prFlt_eq_fltRepr n k
+
+/-- The JSON codec, under every setting, satisfies the hypothesis of the theorems above on the
+    string-keyed documents. -/
+theorem json_codec_roundtrips (o : Json.Opts) (d : Val) (h : Json.isJsonK true d = true)
+    (hk : Json.strKeys d = true) : (Json.codec o).RoundTrips d := by
+  refine ⟨Json.print o d, ?_, ?_⟩
+  · simp [Json.codec, Json.isJsonK_mono d h]
+  · simp [Json.codec, json_roundtrip o d h hk]
+
+/-- **write_fetch for JSON, without hypothesis on the codec, any keys `json.dump` accepts.** The
+    fetch step stores the payload with its keys coerced (`o`: settings at write time; reading does
+    not depend on them). -/
+theorem write_fetch_json_coerce (o : Json.Opts) (fuel fuel2 : Nat) (ctx ctx2 : Ctx)
+    (files : Files (List Char)) (path : String) (p' : Val) (key : Option Val)
+    (hw : writePayload .json fuel ctx = .ok (path, p')) (hj : Json.isJsonK true p' = true)
+    (hf : fetchArgs .json fuel2 ctx2 = .ok (path, key)) :
+    ∃ files', fileWrite .json (Json.codec o) fuel ctx files = .ok files' ∧
+      fetch .json (Json.codec o) fuel2 ctx2 files' = store ctx2 key (Json.coerceKeys p') := by
+  refine ⟨files.set path (Json.print o p'), ?_, ?_⟩
+  · exact fileWrite_ok .json _ fuel ctx files path p' _ hw (by simp [Json.codec, Json.isJsonK_mono p' hj])
+  · exact fetch_eq_store .json _ fuel2 ctx2 _ path key _ _ hf (Files.get?_set_self files path _)
+      (by simp [Json.codec, json_roundtrip_coerce o p' hj])
+
+/-- **write_fetch_roundtrip for JSON, without hypothesis on the codec** (string keys: the payload itself). -/
+theorem write_fetch_roundtrip_json (o : Json.Opts) (fuel fuel2 : Nat) (ctx ctx2 : Ctx)
+    (files : Files (List Char)) (path : String) (p' : Val) (key : Option Val)
+    (hw : writePayload .json fuel ctx = .ok (path, p')) (hj : Json.isJsonK true p' = true)
+    (hk : Json.strKeys p' = true)
+    (hf : fetchArgs .json fuel2 ctx2 = .ok (path, key)) :
+    ∃ files', fileWrite .json (Json.codec o) fuel ctx files = .ok files' ∧
+      fetch .json (Json.codec o) fuel2 ctx2 files' = store ctx2 key p' :=
+  write_fetch_roundtrip .json (Json.codec o) fuel fuel2 ctx ctx2 files path p' key hw
+    (json_codec_roundtrips o p' hj hk) hf
+
+/-- **fileformat_doc_spec for JSON, without hypothesis on the codec**: the output parses to the
+    formatted document with its keys coerced (a key `'{k2}'` that formats to the int 42 is `"42"`)… -/
+theorem fileformatjson_doc_coerce (o : Json.Opts) (fuel : Nat) (ctx : Ctx) (src : List Char) (d d' : Val)
+    (hsrc : (Json.codec o).dec src = some d) (hd : isDoc d = true) (hfmt : fmtDoc fuel ctx d = .ok d')
+    (hj : Json.isJsonK true d' = true) :
+    ∃ out, fileFormatDoc (Json.codec o) fuel ctx src = .ok out ∧
+      (Json.codec o).dec out = some (Json.coerceKeys d') ∧ DocMap ctx d d' := by
+  have he : (Json.codec o).enc d' = some (Json.print o d') := by
+    simp [Json.codec, Json.isJsonK_mono d' hj]
+  refine ⟨Json.print o d', ?_, ?_, fmtDoc_maps_strings fuel ctx d d' hd hfmt⟩
+  · simp only [fileFormatDoc, hsrc, hfmt, he]
+  · simp [Json.codec, json_roundtrip_coerce o d' hj]
+
+/-- …and to the formatted document itself when all its keys are (distinct) strings. -/
+theorem fileformatjson_doc_spec (o : Json.Opts) (fuel : Nat) (ctx : Ctx) (src : List Char) (d d' : Val)
+    (hsrc : (Json.codec o).dec src = some d) (hd : isDoc d = true) (hfmt : fmtDoc fuel ctx d = .ok d')
+    (hj : Json.isJsonK true d' = true) (hk : Json.strKeys d' = true) :
+    ∃ out, fileFormatDoc (Json.codec o) fuel ctx src = .ok out ∧ (Json.codec o).dec out = some d' ∧
+      DocMap ctx d d' :=
+  fileformat_doc_spec (Json.codec o) fuel ctx src d d' hsrc hd hfmt (json_codec_roundtrips o d' hj hk)
+
+/-- The hypotheses hold of the example document, and the round trip computes (default settings). -/
+example : Json.isJsonK true docEx = true ∧ Json.strKeys docEx = true := by decide +kernel
+
+example : Json.print {} docEx =
+    "{\n  \"a{k1}\": [\n    \"x{k1}\",\n    \"{k2}\",\n    1,\n    null\n  ],\n  \"true\": \"true\"\n}".toList ∧
+    Json.parse (Json.print {} docEx) = .ok docEx [] := by
+  decide +kernel
+
+/-- Non-string keys (two of them written as the same string), floats, a non-BMP character and DEL. -/
+private def docK : Val :=
+  .dict [(.int 42, .flt (-5) 2), (.str "42", .list [.flt 1 0, .flt 131073 1, .str "😀\x7fé"]),
+         (.bool true, .none), (.none, .int (-7)), (.flt 3 1, .dict [(.int 1, .str "a"), (.str "1", .str "b")])]
+
+example : Json.isJsonK true docK = true ∧ Json.strKeys docK = false := by decide +kernel
+
+example : Json.coerceKeys docK =
+    .dict [(.str "42", .list [.flt 1 0, .flt 131073 1, .str "😀\x7fé"]), (.str "true", .none),
+           (.str "null", .int (-7)), (.str "1.5", .dict [(.str "1", .str "b")])] := by decide +kernel
+
+/-- `indent=None, ensure_ascii=True`: one line, `\uXXXX` escapes, a surrogate pair — and it reads back. -/
+example : Json.print { ind := none, ascii := true } docK =
+    ("{\"42\": -1.25, \"42\": [1.0, 65536.5, \"\\ud83d\\ude00\\u007f\\u00e9\"], \"true\": null, " ++
+     "\"null\": -7, \"1.5\": {\"1\": \"a\", \"1\": \"b\"}}").toList ∧
+    Json.parse (Json.print { ind := none, ascii := true } docK) = .ok (Json.coerceKeys docK) [] := by
+  decide +kernel
+
+/-- `indent=0`: newlines, no blanks. -/
+example : Json.print { ind := some 0 } (.list [.int 1, .dict [(.str "a", .flt 1 1)]]) =
+    "[\n1,\n{\n\"a\": 0.5\n}\n]".toList := by decide +kernel
 
 end Pypyr.C16
